@@ -91,7 +91,7 @@ Proof.
     assert (HWW : sumf nwwait (st s) = 0) by (eapply no_wwait; eauto; rewrite Epc; [reflexivity|discriminate]).
     assert (HX : sumf nexit (st s) = 0). { destruct (sumf nexit (st s)); auto. specialize (HE ltac:(lia)). congruence. }
     sum_upd npsig npsig_wake_push npsig_wake_pop.
-    pose proof (sumf_upd nanb tid (set_pc RUnlock th) _ th (nth_error_broadcast_pop (st s) tid th Hth ltac:(not_asleep Epc))) as Ha.
+    pose proof (sumf_upd nanb tid (set_pc RBcastPush th) _ th (nth_error_broadcast_pop (st s) tid th Hth ltac:(not_asleep Epc))) as Ha.
     rewrite sumf_nanb_broadcast_pop in Ha. right. unfold nrb, npsig, nanb in *; cbn in *; rewrite ?Epc in *; cbn in *; lia.
   - (* POOL_join's broadcast (only reachable with shutdown set; treated uniformly) *)
     sum_upd nrb nrb_wake_push nrb_wake_pop; sum_upd npsig npsig_wake_push npsig_wake_pop.
